@@ -211,7 +211,8 @@ def escape(s):
 
 
 def expected_html(lines):
-    return '<p>' + escape('\n'.join(ln.strip(' ') for ln in lines)) + '</p>\n'
+    # 4.8: leading spaces and tabs of every line are skipped; trailing spaces go with the soft break (6.8)
+    return '<p>' + escape('\n'.join(ln.lstrip(' \t').rstrip(' ') for ln in lines)) + '</p>\n'
 
 
 # (lines, inert?) -- hand-derived from the spec; checked at start-up by b14.run
